@@ -11,7 +11,9 @@ RULE = (
     "every program of public factory calls in the SQL engine (six unary operations, join with/without predicate in "
     "both operand orders, chain; operands from a fixed pool incl. chains, projected siblings, sliced/deduplicated "
     "partners) up to the depth bound from every root leaf configuration, plus every program of depth <= 2 (thorough 3) over a "
-    "17-operation alphabet from EVERY leaf table of <= 2 rows over a 2x2x2 value cube (73 tables); one evaluation = real factory call + "
+    "17-operation alphabet from EVERY leaf table of <= 2 rows over a 2x2x2 value cube (73 tables), plus every program "
+    "up to the depth bound over a world whose column tags collide in Python's set table, so that equal column sets reach "
+    "chains/joins through every insertion history (set iteration order is the nondeterminism owned here); one evaluation = real factory call + "
     "to_executable + compile + run on SQLite in both physical scan orders, compared with the reference evaluator "
     "(list if the order is determined, multiset otherwise, weak if a slice consumed an unordered input); "
     "non-trivial = program depth >= 2; distinct = distinct (tree, rows) digests"
@@ -25,8 +27,11 @@ class C02(Check):
         w = spaces.sql_world()
         dw, droots = spaces.sql_data_world(2)
         data = SubSpace("sqldata/all-tables<=2/d2", dw, droots, spaces.SQL_DATA_OPS, 2)
+        assert spaces.collide_orders_differ(), "collide world is vacuous: equal column sets iterate identically"
+        cw = spaces.collide_world()
         if tier == "quick":
             return [
+                SubSpace("sqlcollide/all/d3", cw, spaces.COLLIDE_ROOTS, spaces.COLLIDE_OPS, 3),
                 SubSpace("sql/mini/X/d5", w, ("X",), spaces.SQL_MINI, 5),
                 SubSpace("sql/expr/X/d2", w, ("X", "Y"), spaces.EXPR_OPS, 2),
                 data,
@@ -35,6 +40,7 @@ class C02(Check):
                 SubSpace("sql/reduced/X/d4", w, ("X",), spaces.SQL_REDUCED, 4),
             ]
         return [
+            SubSpace("sqlcollide/all/d4", cw, spaces.COLLIDE_ROOTS, spaces.COLLIDE_OPS, 4),
             SubSpace("sql/mini/X/d6", w, ("X", "Y"), spaces.SQL_MINI, 6),
             SubSpace("sql/expr/X/d3", w, ("X", "Y"), spaces.EXPR_OPS, 3),
             SubSpace("sqldata/all-tables<=2/d3", dw, droots, spaces.SQL_DATA_OPS, 3),
